@@ -5,7 +5,8 @@
 (*   kind "type"  : OpType(rec, ats) = recorded type (or Err)              *)
 (*   kind "val"   : the typing agrees, the arguments have their types, and *)
 (*                  the recorded outcome equals OpEval (value or runtime   *)
-(*                  error).  mode "num": residues modulo 2^min(w,RingBits);*)
+(*                  error), and the byte layout of a value fits the type.  *)
+(*                  mode "num": residues modulo 2^min(w,RingBits);         *)
 (*                  "tok": opaque tokens (structural operations, the       *)
 (*                  harness substitutes extreme values of any width);      *)
 (*                  "limb": exact values as base-256 limbs (BigMod).       *)
@@ -132,6 +133,8 @@ ValOK(r) ==
              \* is not a permutation (a violated precondition, the reaction is not documented) any non-crash will do
              THEN (IF pl.p \in {"applyperm", "invperm"} THEN r.res \in {"error", "value"} ELSE r.res = "error")
              ELSE r.res = "value" /\ r.out = Exec(pl, r.args, r.ty)
+  \* a value has the byte layout of the node's type (packed bits: (cells + 7) \div 8 bytes) and check_type accepts it
+  /\ ("tree" \in DOMAIN r) => (r.chk /\ ShapeOK(r.tree, r.ty))
 
 \* whole-graph evaluation (Evaluator::evaluate_graph, the machine of spec/EvalGraph.tla) of a random graph with a
 \* random output node, against node-by-node evaluation of the same graph with the same inputs and PRNG seed:
